@@ -401,7 +401,9 @@ fn forward_transformed(idx: u64, rng: &mut Rng, mon: &mut Mon) {
     // nothing may get lost on the way: asking the wrapped robot directly for the (reference) moved pose gives the list
     {
         use rs_opw_kinematics::kinematic_traits::Kinematics;
-        let direct = frame.robot.inverse_continuing(&fr_to_iso(&want), &prev_given);
+        // (asked for the bit-identical pose that forward_transformed reports - its agreement with the reference
+        // composition is checked above - so that both calls see the same input)
+        let direct = frame.robot.inverse_continuing(&pose, &prev_given);
         // (modulo whole turns: a solution angle exactly pi away from previous may take either representative)
         let missing = direct.iter().filter(|d| !sols.iter().any(|s| (0..6).all(|j| circ_dist(s[j], d[j]) <= 1e-6))).count();
         if missing > 0 || sols.len() < direct.len() {
@@ -450,10 +452,10 @@ fn forward_transformed(idx: u64, rng: &mut Rng, mon: &mut Mon) {
             pv[3] += e * rp.signs[3] as f64;
             pv[5] -= e * rp.signs[5] as f64;
             let idf = Frame { robot: kin.clone(), frame: Frame::translation(pt([0.3, 0.2, 0.1]), pt([0.3, 0.2, 0.1])) };
-            let (sols, _) = idf.forward_transformed(&qs, &pv);
+            let (sols, moved) = idf.forward_transformed(&qs, &pv);
             mon.count("forward_transformed.singular_with_other_previous");
             // what the wrapped robot itself answers for that pose with the caller's previous vector
-            let direct = rs_opw_kinematics::kinematic_traits::Kinematics::inverse_continuing(kin.as_ref(), &fr_to_iso(&fk(&rp, &qs)), &pv);
+            let direct = rs_opw_kinematics::kinematic_traits::Kinematics::inverse_continuing(kin.as_ref(), &moved, &pv);
             let missing = direct.iter().filter(|d| !sols.iter().any(|s| (0..6).all(|j| circ_dist(s[j], d[j]) <= 1e-6))).count();
             if missing > 0 {
                 mon.violation("forward-transformed:solutions-lost:singular-pose", "wrist-singular pose through an identity frame: an answer the wrapped robot gives for the caller's previous joints is missing", json!({"robot": robot_json(&robot), "qs": jf(&qs), "previous": jf(&pv), "answers": sols.iter().map(|s| jf(s)).collect::<Vec<_>>(), "wrapped_robot": direct.iter().map(|s| jf(s)).collect::<Vec<_>>()}));
